@@ -49,6 +49,11 @@ UPD = {
  "C09-5": ({"C09": 0, "C16": 1}, "missed at first; C16 passes spread=0 explicitly for some discrete delays of Connectivity objects"),
  "C09-6": ({"C09": 1}, "missed at first; C09 has the alg_chain arm (algebraic source that depends on an edge from an algebraic variable of a later node, delayed and undelayed targets)"),
  "C17-5": ({"C17": 1}, "missed at first; C17 draws three keys with permute_grid=True"),
+ # ---- round 4 (seeds -7, ten properties, written against the tree with the repairs up to §12.9) ----
+ "C19-7": ({"C19": 1}, "missed at first; the C19 machine has a rule that repeats the time of the previous query exactly (after updates in between)"),
+ "C02-7": ({"C02": 1}, "missed at first; half of C02's fixed-step trajectory cases run the same model a second time in the process with twice the step size and the same numbers of steps (no cache reset in between)"),
+ "C06-7": ({"C06": 1}, "missed at first; a quarter of C06's circuits give structurally different node templates the same template name"),
+ "C07-7": ({"C07": 1}, "patch ported by hand (the repair F-07e touched the in-place branch of update_template; the agent's patch is kept as patch.orig.diff); caught"),
 }
 for k, (res, note) in UPD.items():
     p = os.path.join(HERE, "seeded", k, "meta.json")
